@@ -120,3 +120,129 @@ def respell(rng, c, p=0.4):
             c["nodes"] = [m[x] for x in c["nodes"]]
             c["edges"] = [[m[a], m[b]] for a, b in c["edges"]]
     return c
+
+
+# ---------------------------------------------------------------- graphs with cycles (C13, second half)
+MSG_KINDS = [
+    (r"Invalid path structure \(branch or merge detected\)\.$", "RBranch", False),
+    (r"Cycle detected\.$", "RCycle", False),
+    (r"Not fully connected\.$", "RDisconnected", False),
+    (r"Invalid path structure \(division or merge inside the tracklet\)\.$", "RDivMerge", False),
+    (r"Not maximal\. Path can extend backward to node (-?\d+)\.$", "RBack", True),
+    (r"Not maximal\. Path can extend forward to node (-?\d+)\.$", "RFwd", True),
+]
+
+
+def parsed_msgs(errors):
+    """[tracklet id | None, reason constructor | None, node | None] per message of validate_tracklets"""
+    out = []
+    for e in errors:
+        m = re.match(r"Tracklet (-?\d+): (.*)$", e)
+        if not m:
+            out.append([None, None, None])
+            continue
+        tid, rest = int(m.group(1)), m.group(2)
+        for pat, name, has_node in MSG_KINDS:
+            mm = re.match(pat, rest)
+            if mm:
+                out.append([tid, name, int(mm.group(1)) if has_node else None])
+                break
+        else:
+            out.append([tid, None, None])
+    return out
+
+
+def has_directed_cycle(nodes, edges):
+    """Directed cycle among `nodes` using only edges with both ends in `nodes` (self loop = cycle).
+    Depth-first search with colours (deliberately not Kahn's algorithm, which is what networkx and the model use)."""
+    nodes = set(nodes)
+    adj = {n: [] for n in nodes}
+    for a, b in edges:
+        if a in nodes and b in nodes:
+            adj[a].append(b)
+    colour = dict.fromkeys(nodes, 0)
+    for root in nodes:
+        if colour[root]:
+            continue
+        colour[root] = 1
+        stack = [(root, iter(adj[root]))]
+        while stack:
+            u, it = stack[-1]
+            for v in it:
+                if colour[v] == 1:
+                    return True
+                if colour[v] == 0:
+                    colour[v] = 1
+                    stack.append((v, iter(adj[v])))
+                    break
+            else:
+                colour[u] = 2
+                stack.pop()
+    return False
+
+
+def linking_components(nodes, edges):
+    es = {tuple(e) for e in edges}
+    outd = {n: len({b for a, b in es if a == n}) for n in nodes}
+    ind = {n: len({a for a, b in es if b == n}) for n in nodes}
+    linking = [(a, b) for a, b in es if outd[a] == 1 and ind[b] == 1]
+    return components(nodes, linking)
+
+
+def planted_cyclic(rng, n):
+    """A forest-like DAG on n nodes (index edges) with 1-3 planted cycles: self loops, 2-cycles, 3-cycles, a tracklet closed
+    into a ring (cycle INSIDE a tracklet), back edges through divisions / merges (cycle OUTSIDE the tracklets), isolated rings."""
+    order = list(range(n))
+    rng.shuffle(order)
+    edges = []
+    for j in range(1, n):
+        if rng.random() < 0.8:
+            edges.append((order[rng.randrange(max(0, j - 3), j)], order[j]))
+        if rng.random() < 0.1:
+            edges.append((order[rng.randrange(0, j)], order[j]))
+    edges = list(dict.fromkeys(edges))
+    what = []
+    for _ in range(rng.choice([1, 1, 2, 3])):
+        k = rng.choice(["self", "two", "two_edge", "three", "three_path", "close", "ring", "back"])
+        if k == "self":
+            a = rng.randrange(n)
+            edges.append((a, a))
+        elif k == "two" and n >= 2:
+            a, b = rng.sample(range(n), 2)
+            edges += [(a, b), (b, a)]
+        elif k == "two_edge" and edges:
+            a, b = rng.choice(edges)
+            edges.append((b, a))
+        elif k == "three" and n >= 3:
+            a, b, c = rng.sample(range(n), 3)
+            edges += [(a, b), (b, c), (c, a)]
+        elif k == "three_path":
+            two = [(a, b, c) for a, b in edges for b2, c in edges if b2 == b and c != a and a != b and b != c]
+            if two:
+                a, b, c = rng.choice(two)
+                edges.append((c, a))
+        elif k == "close":
+            comps = [c for c in linking_components(list(range(n)), edges) if len(c) >= 2]
+            if comps:
+                c = rng.choice(sorted(comps, key=min))
+                es = set(edges)
+                heads = [x for x in c if not any((y, x) in es for y in c)]
+                tails = [x for x in c if not any((x, y) in es for y in c)]
+                if heads and tails:
+                    edges.append((tails[0], heads[0]))
+        elif k == "ring":
+            free = [x for x in range(n) if not any(x in e for e in edges)]
+            m = min(len(free), rng.choice([1, 2, 3, 4]))
+            ring = free[:m]
+            edges += [(ring[i], ring[(i + 1) % m]) for i in range(m)]
+        elif k == "back" and edges:
+            a, b = rng.choice(edges)
+            desc = {b}
+            for _ in range(n):
+                desc |= {y for x, y in edges if x in desc}
+            edges.append((rng.choice(sorted(desc)), a))
+        what.append(k)
+    edges = list(dict.fromkeys(edges))
+    if rng.random() < 0.1 and edges:
+        edges.append(rng.choice(edges))
+    return edges, what
